@@ -298,7 +298,8 @@ def hmac_l2_groups(prefix, props, cfg="C64", tier="quick"):
             ("hmaca", "src/hash/ascon-hasha.c", "src/hash/ascon-xofa.c", XOFA_RENAME, "0x00400c04u", "SPEC_XOFA", "13u", "ascon_hmaca_state_t", "ascon_hasha_init")):
         for op, f in (("hmac", "ascon_%s" % alg), ("hmac_init", "ascon_%s_init" % alg), ("hmac_reinit", "ascon_%s_reinit" % alg),
                       ("hmac_finalize", "ascon_%s_finalize" % alg)):
-            klens = [0, 1, 31, 32, 33, 63, 64, 65, 100] if tier == "quick" else list(range(0, 67)) + [100, 1000]
+            # (every key length 0..66 took hours: each group needs 40-170 s and several GB)
+            klens = [0, 1, 31, 32, 33, 63, 64, 65, 100] if tier == "quick" else [0, 1, 16, 31, 32, 33, 48, 62, 63, 64, 65, 66, 100, 1000]
             for kl in klens:
                 for iname, idefs in ((("long", []), ("in0", ["VERIF_INLEN=0"]), ("in5", ["VERIF_INLEN=5"])) if op == "hmac" else
                                      (("c0", ["VERIF_INNER_COUNT=0"]), ("c5", ["VERIF_INNER_COUNT=5"])) if op == "hmac_finalize" else (("", []),)):
